@@ -452,20 +452,24 @@ impl Iterator for QueryState<'_> {
             // this should halt the search for solutions as it
             // does in the Scryer top-level. the exception term is
             // contained in self.machine_st.ball.
-            let h = machine.machine_st.heap.cell_len();
-
-            if let Err(err) = machine
+            // the ball's cells are relative to the heap boundary at which it
+            // was recorded: copy it back aligned to the current end of the heap.
+            let h = match machine
                 .machine_st
-                .heap
-                .append(&machine.machine_st.ball.stub)
+                .ball
+                .copy_and_align_to(&mut machine.machine_st.heap)
             {
-                let resource_error_offset = err.resource_error_offset(&mut machine.machine_st.heap);
-                return Some(Err(Term::from_heapcell(
-                    machine,
-                    machine.machine_st.heap[resource_error_offset],
-                    &mut IndexMap::new(),
-                )));
-            }
+                Ok(h) => h,
+                Err(err) => {
+                    let resource_error_offset =
+                        err.resource_error_offset(&mut machine.machine_st.heap);
+                    return Some(Err(Term::from_heapcell(
+                        machine,
+                        machine.machine_st.heap[resource_error_offset],
+                        &mut IndexMap::new(),
+                    )));
+                }
+            };
 
             let exception_term =
                 Term::from_heapcell(machine, machine.machine_st.heap[h], &mut var_names.clone());
